@@ -1,5 +1,11 @@
 /-! C16: model of the DOF interface of `Qsc` (get_dofs / set_dofs / change_nfourier / names) as a state machine,
-    with the layout, round-trip and well-formedness-for-every-history theorems. Core Lean only. -/
+    with the layout, round-trip and well-formedness-for-every-history theorems. Core Lean only.
+
+    Part 1 (`St`): the pure value-level machine.
+    Part 2 (`World`): the same interface with memory ownership (a heap of arrays, owner tags, views), the
+    constructor, `calculate`/`outputs` over an abstract pipeline `pipe : Params → Out`, caller-side mutation, the
+    pre-repair `set_dofs` (slices are views into the caller's array), and a line driver `runOps`.
+    The theorems about Part 2 are in `QscProofs/C16.lean`. -/
 namespace Hand.Dof
 
 structure St where
@@ -17,11 +23,18 @@ def WF (s : St) : Prop :=
 /-- `get_dofs`: concatenate((rc, zs, rs, zc, [7 scalars])) -/
 def getDofs (s : St) : List Int := s.rc ++ s.zs ++ s.rs ++ s.zc ++ s.sc
 
+/-- the seven scalar names, in the order of `_set_names` / `get_dofs` -/
+def scalarNames : List String := ["etabar", "sigma0", "B2s", "B2c", "p2", "I2", "B0"]
+
+/-- one block `['rc({})'.format(j) for j in range(nfourier)]` -/
+def nameBlock (pre : String) (n : Nat) : List String := (List.range n).map (fun j => s!"{pre}({j})")
+
+/-- `_set_names` as a function of `nfourier` -/
+def mkNames (n : Nat) : List String :=
+  nameBlock "rc" n ++ nameBlock "zs" n ++ nameBlock "rs" n ++ nameBlock "zc" n ++ scalarNames
+
 /-- `_set_names` -/
-def names (s : St) : List String :=
-  (List.range s.nf).map (fun j => s!"rc({j})") ++ (List.range s.nf).map (fun j => s!"zs({j})") ++
-  (List.range s.nf).map (fun j => s!"rs({j})") ++ (List.range s.nf).map (fun j => s!"zc({j})") ++
-  ["etabar", "sigma0", "B2s", "B2c", "p2", "I2", "B0"]
+def names (s : St) : List String := mkNames s.nf
 
 /-- `set_dofs(x)`: slices of length nf; the code asserts `len(x) == 4 nf + 7` -/
 def setDofs (s : St) (x : List Int) : Option St :=
@@ -47,7 +60,7 @@ theorem dofs_layout (s : St) (h : WF s) :
   obtain ⟨h1, h2, h3, h4, h5⟩ := h
   constructor
   · simp [getDofs, h1, h2, h3, h4, h5]; omega
-  · simp [names]; omega
+  · simp [names, mkNames, nameBlock, scalarNames]; omega
 
 theorem setDofs_wf (s : St) (x : List Int) (s' : St) (h : setDofs s x = some s') : WF s' ∧ s'.nf = s.nf := by
   unfold setDofs at h
@@ -100,25 +113,343 @@ theorem set_get (s : St) (h : WF s) : setDofs s (getDofs s) = some s := by
   have t3 : ((getDofs s).drop (3 * s.nf)).take s.nf = s.zc := by rw [d3]; exact List.take_left' h4
   rw [t0, t1, t2, t3, d4]
 
-inductive Op | set (x : List Int) | resize (m : Nat)
+inductive StOp | set (x : List Int) | resize (m : Nat)
 
-def step (s : St) : Op → St
+def stStep (s : St) : StOp → St
   | .set x => (setDofs s x).getD s        -- the assertion failing leaves the object unchanged
   | .resize m => changeNfourier s m
 
 /-- well-formedness (one entry per advertised name, in the advertised order) after EVERY history -/
-theorem wf_history (ops : List Op) (s : St) (h : WF s) : WF (ops.foldl step s) := by
+theorem wf_history (ops : List StOp) (s : St) (h : WF s) : WF (ops.foldl stStep s) := by
   induction ops generalizing s with
   | nil => exact h
   | cons op ops ih =>
     apply ih
     cases op with
     | set x =>
-      simp only [step]
+      simp only [stStep]
       cases hx : setDofs s x with
       | none => simpa using h
       | some s' => simpa using (setDofs_wf s x s' hx).1
     | resize m => exact change_wf s m h
 
 example : WF { nf := 2, rc := [1, 2], zs := [0, 3], rs := [0, 0], zc := [0, 0], sc := [1,0,0,0,0,0,1] } := by simp [WF]
+
+/-! ## Part 2: the machine with memory ownership, constructor and outputs -/
+
+/-- the four coefficient arrays, in the order of `get_dofs`: rc, zs, rs, zc -/
+structure Four (α : Type) where
+  rc : α
+  zs : α
+  rs : α
+  zc : α
+deriving DecidableEq, Repr
+
+namespace Four
+variable {α β : Type}
+def map (f : α → β) (x : Four α) : Four β := ⟨f x.rc, f x.zs, f x.rs, f x.zc⟩
+def All (p : α → Prop) (x : Four α) : Prop := p x.rc ∧ p x.zs ∧ p x.rs ∧ p x.zc
+end Four
+
+/-- the seven scalar degrees of freedom, in the order of `get_dofs` -/
+structure Scal where
+  etabar : Int
+  sigma0 : Int
+  B2s : Int
+  B2c : Int
+  p2 : Int
+  I2 : Int
+  B0 : Int
+deriving DecidableEq, Repr
+
+def Scal.toList (s : Scal) : List Int := [s.etabar, s.sigma0, s.B2s, s.B2c, s.p2, s.I2, s.B0]
+/-- `etabar = x[0], sigma0 = x[1], ...` (applied to the tail `x[4 nfourier :]`) -/
+def Scal.ofList (l : List Int) : Scal :=
+  ⟨l.getD 0 0, l.getD 1 0, l.getD 2 0, l.getD 3 0, l.getD 4 0, l.getD 5 0, l.getD 6 0⟩
+
+/-- everything the pipeline `calculate` reads = the arguments of the constructor -/
+structure Params where
+  coef : Four (List Int)
+  sc : Scal
+  nfp : Nat
+  sG : Int
+  spsi : Int
+  nphi : Nat
+  order : String
+deriving DecidableEq, Repr
+
+/-- append `k` zero harmonics to each of the four coefficient lists -/
+def Params.padBy (p : Params) (k : Nat) : Params := { p with coef := p.coef.map (· ++ List.replicate k 0) }
+
+inductive Owner | obj | caller
+deriving DecidableEq, Repr
+
+/-- one numpy array on the heap: who holds the (only) reference to it, and its contents -/
+structure Cell where
+  owner : Owner
+  data : List Int
+deriving DecidableEq, Repr
+
+/-- the heap: reference = index; allocation appends (references are never reused) -/
+abbrev Heap := List Cell
+
+/-- a numpy array reference: `base[off : off+len]` (a whole array is `⟨r, 0, len⟩`) -/
+structure View where
+  base : Nat
+  off : Nat
+  len : Nat
+deriving DecidableEq, Repr
+
+def readView (h : Heap) (v : View) : List Int :=
+  match h[v.base]? with
+  | some c => (c.data.drop v.off).take v.len
+  | none => []
+
+/-- allocate four fresh arrays owned by the object, holding `d`; returns whole-array references -/
+def allocFour (h : Heap) (d : Four (List Int)) : Four View × Heap :=
+  (⟨⟨h.length, 0, d.rc.length⟩, ⟨h.length + 1, 0, d.zs.length⟩,
+    ⟨h.length + 2, 0, d.rs.length⟩, ⟨h.length + 3, 0, d.zc.length⟩⟩,
+   h ++ [⟨.obj, d.rc⟩, ⟨.obj, d.zs⟩, ⟨.obj, d.rs⟩, ⟨.obj, d.zc⟩])
+
+/-- `x[0:n], x[n:2n], x[2n:3n], x[3n:4n]` as views of the array `r` -/
+def sliceViews (r n : Nat) : Four View := ⟨⟨r, 0, n⟩, ⟨r, n, n⟩, ⟨r, 2 * n, n⟩, ⟨r, 3 * n, n⟩⟩
+
+/-- heap + the attributes of the `Qsc` object that the DOF interface touches -/
+structure World (Out : Type) where
+  heap : Heap
+  nf : Nat
+  refs : Four View            -- self.rc, self.zs, self.rs, self.zc  (references!)
+  sc : Scal
+  nfp : Nat
+  sG : Int
+  spsi : Int
+  nphi : Nat
+  order : String
+  names : List String
+  outputs : Out
+deriving Repr
+
+variable {Out : Type}
+
+def World.coef (w : World Out) : Four (List Int) := w.refs.map (readView w.heap)
+/-- the current parameters (what `calculate` would read now) -/
+def World.params (w : World Out) : Params := ⟨w.coef, w.sc, w.nfp, w.sG, w.spsi, w.nphi, w.order⟩
+/-- the value `get_dofs` returns -/
+def World.dofs (w : World Out) : List Int :=
+  w.coef.rc ++ w.coef.zs ++ w.coef.rs ++ w.coef.zc ++ w.sc.toList
+
+/-- `calculate()` -/
+def calculate (pipe : Params → Out) (w : World Out) : World Out := { w with outputs := pipe w.params }
+
+/-- `self.rc = <fresh array holding d.rc>; ...` -/
+def install (w : World Out) (d : Four (List Int)) : World Out :=
+  { w with heap := (allocFour w.heap d).2, refs := (allocFour w.heap d).1 }
+
+/-- `Qsc(rc, zs, rs, zc, nfp, etabar, ..., order)`: the caller's four input arrays are the heap cells 0..3 (owned by
+    the caller), the object gets fresh zero-padded copies, nphi is forced odd, bad sign flags raise ValueError. -/
+def construct (pipe : Params → Out) (a : Params) : Except String (World Out) :=
+  let h0 : Heap := [⟨.caller, a.coef.rc⟩, ⟨.caller, a.coef.zs⟩, ⟨.caller, a.coef.rs⟩, ⟨.caller, a.coef.zc⟩]
+  let inp : Four (List Int) :=
+    (Four.mk ⟨0, 0, a.coef.rc.length⟩ ⟨1, 0, a.coef.zs.length⟩ ⟨2, 0, a.coef.rs.length⟩ ⟨3, 0, a.coef.zc.length⟩).map
+      (readView h0)
+  let nf := max (max (max inp.rc.length inp.zs.length) inp.rs.length) inp.zc.length
+  let nphi := if a.nphi % 2 = 0 then a.nphi + 1 else a.nphi
+  if a.sG ≠ 1 ∧ a.sG ≠ -1 then .error "ValueError: sG must be +1 or -1"
+  else if a.spsi ≠ 1 ∧ a.spsi ≠ -1 then .error "ValueError: spsi must be +1 or -1"
+  else
+    let d := inp.map (resize · nf)
+    .ok { heap := (allocFour h0 d).2, nf := nf, refs := (allocFour h0 d).1, sc := a.sc, nfp := a.nfp, sG := a.sG,
+          spsi := a.spsi, nphi := nphi, order := a.order, names := mkNames nf,
+          outputs := pipe ⟨d, a.sc, a.nfp, a.sG, a.spsi, nphi, a.order⟩ }
+
+inductive Resp
+  | ok
+  | okRef (r : Nat)                    -- ok; `r` = reference of the array the caller just built
+  | dofs (r : Nat) (x : List Int)      -- the array returned by get_dofs (reference, contents); the caller owns it
+  | error (e : String)                 -- a Python exception; the object is unchanged
+  | badOp                              -- not an operation the caller can perform
+deriving DecidableEq, Repr
+
+/-- `set_dofs(x)` where `x` is the caller's array `r`.  `copy = true`: the current code (`np.copy` of the four
+    slices).  `copy = false`: the code before the repair (the four attributes are views into `x`). -/
+def setDofsAt (pipe : Params → Out) (copy : Bool) (w : World Out) (r : Nat) : World Out × Resp :=
+  match w.heap[r]? with
+  | none => (w, .badOp)
+  | some c =>
+    if c.owner ≠ .caller then (w, .badOp)
+    else if c.data.length ≠ 4 * w.nf + 7 then (w, .error "AssertionError")
+    else
+      let sl := sliceViews r w.nf
+      let w1 := if copy then install w (sl.map (readView w.heap)) else { w with refs := sl }
+      (calculate pipe { w1 with sc := Scal.ofList (c.data.drop (4 * w.nf)) }, .ok)
+
+/-- `change_nfourier(m)`: fresh zero arrays, first `min(nf, m)` entries copied, names rebuilt, recalculation ONLY
+    when the size decreased. -/
+def changeNf (pipe : Params → Out) (w : World Out) (m : Nat) : World Out :=
+  let w1 := { install w (w.coef.map (resize · m)) with nf := m, names := mkNames m }
+  if m < w.nf then calculate pipe w1 else w1
+
+/-- `get_dofs()`: `np.concatenate` allocates; the result belongs to the caller -/
+def getDofsW (w : World Out) : World Out × Resp :=
+  ({ w with heap := w.heap ++ [⟨.caller, w.dofs⟩] }, .dofs w.heap.length w.dofs)
+
+/-- the caller executes `a[i] = v` on an array `a` it holds (reference `r`) -/
+def callerMutate (w : World Out) (r i : Nat) (v : Int) : World Out × Resp :=
+  match w.heap[r]? with
+  | none => (w, .badOp)
+  | some c =>
+    if c.owner ≠ .caller then (w, .badOp)
+    else if i < c.data.length then ({ w with heap := w.heap.set r { c with data := c.data.set i v } }, .ok)
+    else (w, .error "IndexError")
+
+inductive Op
+  | set (x : List Int)                  -- the caller builds a new array x and calls set_dofs(x)
+  | setRef (r : Nat)                    -- set_dofs(a) for an array the caller already holds
+  | setView (x : List Int)              -- as `set`, with the pre-repair set_dofs
+  | setViewRef (r : Nat)                -- as `setRef`, with the pre-repair set_dofs
+  | resize (m : Nat)                    -- change_nfourier(m)
+  | calculate                           -- calculate()
+  | get                                 -- get_dofs()
+  | mutate (r i : Nat) (v : Int)        -- a[i] = v on a caller-owned array
+deriving DecidableEq, Repr
+
+/-- the operations of the CURRENT code (no pre-repair `set_dofs`) -/
+def Op.current : Op → Bool
+  | .setView _ => false
+  | .setViewRef _ => false
+  | _ => true
+
+def Op.isMutate : Op → Bool
+  | .mutate _ _ _ => true
+  | _ => false
+
+/-- build the array, call `set_dofs`; if the length assertion fails nothing is kept -/
+def setNew (pipe : Params → Out) (copy : Bool) (w : World Out) (x : List Int) : World Out × Resp :=
+  match setDofsAt pipe copy { w with heap := w.heap ++ [⟨.caller, x⟩] } w.heap.length with
+  | (w', .ok) => (w', .okRef w.heap.length)
+  | (_, e) => (w, e)
+
+def step (pipe : Params → Out) (w : World Out) : Op → World Out × Resp
+  | .set x => setNew pipe true w x
+  | .setRef r => setDofsAt pipe true w r
+  | .setView x => setNew pipe false w x
+  | .setViewRef r => setDofsAt pipe false w r
+  | .resize m => (changeNf pipe w m, .ok)
+  | .calculate => (calculate pipe w, .ok)
+  | .get => getDofsW w
+  | .mutate r i v => callerMutate w r i v
+
+/-- the world after a history -/
+def run (pipe : Params → Out) (w : World Out) (ops : List Op) : World Out :=
+  ops.foldl (fun w op => (step pipe w op).1) w
+
+/-- the responses of a history -/
+def trace (pipe : Params → Out) (w : World Out) : List Op → List Resp
+  | [] => []
+  | op :: ops => (step pipe w op).2 :: trace pipe (step pipe w op).1 ops
+
+/-- a new object constructed from the current parameters -/
+def World.fresh (pipe : Params → Out) (w : World Out) : Except String (World Out) := construct pipe w.params
+
+/-! ### a concrete pipeline for the driver: the snapshot of the parameters (trailing zero harmonics stripped).
+    Every pad-invariant `calc` factors through it, so it is the most discriminating pad-invariant pipeline. -/
+def stripZeros (l : List Int) : List Int := (l.reverse.dropWhile (· == 0)).reverse
+def snapshot (p : Params) : Params := { p with coef := p.coef.map stripZeros }
+
+/-! ### line driver -/
+def words (s : String) : List String := (s.splitOn " ").filter (· ≠ "")
+def showInts (xs : List Int) : String := " ".intercalate (xs.map toString)
+def showCsv (xs : List Int) : String := ",".intercalate (xs.map toString)
+def parseInts (ts : List String) : Option (List Int) := ts.mapM String.toInt?
+def parseCsv (s : String) : Option (List Int) := parseInts ((s.splitOn ",").filter (· ≠ ""))
+
+def showParams (tag : String) (p : Params) : String :=
+  s!"{tag} rc={showCsv p.coef.rc} zs={showCsv p.coef.zs} rs={showCsv p.coef.rs} zc={showCsv p.coef.zc} " ++
+  s!"sc={showCsv p.sc.toList} nfp={p.nfp} sG={p.sG} spsi={p.spsi} nphi={p.nphi} order={p.order}"
+
+def showResp : Resp → String
+  | .ok => "ok"
+  | .okRef r => s!"ok @{r}"
+  | .dofs r x => s!"dofs @{r} {showInts x}"
+  | .error e => e
+  | .badOp => "bad-op"
+
+/-- the defaults of `Qsc.__init__` (rc and zs are mandatory; they start empty here and `new` checks them) -/
+def defaultArgs : Params :=
+  { coef := ⟨[], [], [], []⟩, sc := ⟨1, 0, 0, 0, 0, 0, 1⟩, nfp := 1, sG := 1, spsi := 1, nphi := 61, order := "r1" }
+
+/-- one `key=value` token of a `new` line -/
+def applyKw (a : Params) (tok : String) : Option Params :=
+  match tok.splitOn "=" with
+  | [k, v] =>
+    match k with
+    | "rc" => (parseCsv v).map fun l => { a with coef := { a.coef with rc := l } }
+    | "zs" => (parseCsv v).map fun l => { a with coef := { a.coef with zs := l } }
+    | "rs" => (parseCsv v).map fun l => { a with coef := { a.coef with rs := l } }
+    | "zc" => (parseCsv v).map fun l => { a with coef := { a.coef with zc := l } }
+    | "etabar" => v.toInt?.map fun x => { a with sc := { a.sc with etabar := x } }
+    | "sigma0" => v.toInt?.map fun x => { a with sc := { a.sc with sigma0 := x } }
+    | "B2s" => v.toInt?.map fun x => { a with sc := { a.sc with B2s := x } }
+    | "B2c" => v.toInt?.map fun x => { a with sc := { a.sc with B2c := x } }
+    | "p2" => v.toInt?.map fun x => { a with sc := { a.sc with p2 := x } }
+    | "I2" => v.toInt?.map fun x => { a with sc := { a.sc with I2 := x } }
+    | "B0" => v.toInt?.map fun x => { a with sc := { a.sc with B0 := x } }
+    | "nfp" => v.toNat?.map fun x => { a with nfp := x }
+    | "sG" => v.toInt?.map fun x => { a with sG := x }
+    | "spsi" => v.toInt?.map fun x => { a with spsi := x }
+    | "nphi" => v.toNat?.map fun x => { a with nphi := x }
+    | "order" => some { a with order := v }
+    | _ => none
+  | _ => none
+
+def parseNew (toks : List String) : Option Params :=
+  if toks.any (fun t => t.startsWith "rc=") && toks.any (fun t => t.startsWith "zs=") then
+    toks.foldlM applyKw defaultArgs
+  else none
+
+def parseOp : List String → Option Op
+  | "set" :: xs => (parseInts xs).map .set
+  | "setview" :: xs => (parseInts xs).map .setView
+  | ["setref", r] => r.toNat?.map .setRef
+  | ["setviewref", r] => r.toNat?.map .setViewRef
+  | ["resize", m] => m.toNat?.map .resize
+  | ["calc"] => some .calculate
+  | ["get"] => some .get
+  | ["mutate", r, i, v] =>
+    match r.toNat?, i.toNat?, v.toInt? with
+    | some r, some i, some v => some (.mutate r i v)
+    | _, _, _ => none
+  | _ => none
+
+/-- one line: the new driver state (no object before a successful `new`) and the response line -/
+def runLine (st : Option (World Params)) (line : String) : Option (World Params) × String :=
+  match words line, st with
+  | "new" :: toks, _ =>
+    match parseNew toks with
+    | none => (st, "bad-op")
+    | some a =>
+      match construct snapshot a with
+      | Except.ok w => (some w, s!"ok nf={w.nf} nphi={w.nphi}")
+      | Except.error e => (st, e)
+  | ["names"], some w => (st, "names " ++ " ".intercalate w.names)
+  | ["params"], some w => (st, showParams s!"params nf={w.nf}" w.params)
+  | ["out"], some w => (st, showParams "out" w.outputs)
+  | ["fresh"], some w =>
+    -- is every output equal to that of a new object built from the current parameters?
+    (st, match w.fresh snapshot with
+         | Except.ok w' => s!"fresh {decide (w'.outputs = w.outputs ∧ w'.params = w.params ∧ w'.names = w.names ∧ w'.dofs = w.dofs)}"
+         | Except.error e => e)
+  | toks, some w =>
+    match parseOp toks with
+    | some op => let r := step snapshot w op; (some r.1, showResp r.2)
+    | none => (st, "bad-op")
+  | _, none => (st, "bad-op")
+
+def runFrom (st : Option (World Params)) : List String → List String
+  | [] => []
+  | l :: ls => (runLine st l).2 :: runFrom (runLine st l).1 ls
+
+/-- one op per line in, one canonical response line out -/
+def runOps (lines : List String) : List String := runFrom none lines
+
 end Hand.Dof
